@@ -90,6 +90,8 @@ type EvoScenario struct {
 	// manySpeciesTies (C17): large genomes, many species, purely structural distances
 	manySpeciesTies bool
 	modular        bool // a modular start genome with crossovers (C17 only)
+	// activatorsFromFile: the list of activation functions was read from an options text by the library's reader (C17 only)
+	activatorsFromFile bool
 	// switchThreshold: the copy of the options that takes over at SwitchOptsAt has another compatibility threshold as well (C08)
 	switchThreshold bool
 	// ownContext: the executor is handed the context the options object gives out itself (Options.NeatContext)
